@@ -2,6 +2,7 @@ package rules
 
 import (
 	"fmt"
+	"os"
 	"go/ast"
 	"go/token"
 	"go/types"
@@ -119,6 +120,121 @@ func isCallOfField(st *ir.Step, fn *ssa.Function, field string) bool {
 	return st.Kind == ir.KCall && st.Method == nil && st.Callee != nil && st.Callee.Op == "field" && st.Callee.Aux == field && paramOf(st.Callee.Args[0], fn, 0)
 }
 
+// ---- composed equations --------------------------------------------------------------------------------------
+// The representation-independent form of a wrapper's defining equation: the method is analysed with its receiver
+// bound to the very value the exported constructor returns (the constructor's own parameters staying symbolic), so
+// the events speak about the constructor's parameters directly - whatever fields, nested structs or helper methods
+// sit in between. Used when the field-role form of the rule does not recognise the representation.
+
+type cExp struct {
+	recv   int      // index of the constructor parameter invoked / called
+	method string   // "" for a plain call of the function parameter
+	args   []string // "pN" = parameter N of the method (1 = first after the receiver), "rK" = result of expected call K
+}
+
+func composedEq(c *core.Ctx, ctor, kind, method string, exps []cExp, result string) (bool, string) {
+	cf := c.W.Func("optics", ctor)
+	k := c04Found[kind]
+	if cf == nil || k == nil {
+		return false, "constructor or composite type not found"
+	}
+	mf := iterMethod(c, k.nt, method)
+	if mf == nil {
+		return false, "method not found"
+	}
+	can := c.Analyze(cf)
+	cps := can.AllPaths()
+	if len(can.Problems) > 0 || len(cps) != 1 || len(cps[0].Results) != 1 || cps[0].Exit != ir.ExitReturn || len(calls(cps[0])) != 0 {
+		return false, "the constructor is not a single straight-line path without calls"
+	}
+	recv := cps[0].Results[0]
+	if _, isPtr := mf.Params[0].Type().Underlying().(*types.Pointer); !isPtr && recv.Op == "alloc" {
+		recv = cps[0].End.MemAt(recv)
+	}
+	an := c.AnalyzeFrom(mf, ir.NewRootState(mf, []*ir.Term{recv}, nil, cps[0].End), "composed:"+ctor)
+	ps := an.AllPaths()
+	if len(an.Problems) > 0 || len(ps) != 1 || ps[0].Exit != ir.ExitReturn || (len(ps[0].Results) != 1 && result != "") {
+		return false, "the method on the constructed value is not a single straight-line path"
+	}
+	p := ps[0]
+	cs := calls(p)
+	if len(cs) != len(exps) {
+		return false, fmt.Sprintf("%d invocations, expected %d", len(cs), len(exps))
+	}
+	if len(nonLocalStores(p)) != 0 {
+		return false, "the wrapper stores on its own"
+	}
+	argOK := func(t *ir.Term, want string) bool {
+		var n int
+		switch {
+		case want == "zero":
+			return t.IsConst() && strings.HasPrefix(t.Aux, "zero")
+		case strings.HasPrefix(want, "p"):
+			fmt.Sscanf(want[1:], "%d", &n)
+			return paramOf(t, mf, n)
+		case strings.HasPrefix(want, "r"):
+			fmt.Sscanf(want[1:], "%d", &n)
+			return n < len(cs) && ir.Same(t, cs[n].R)
+		}
+		return false
+	}
+	for i, e := range exps {
+		st := cs[i]
+		var args []*ir.Term
+		if e.method != "" {
+			if st.Method == nil || st.Method.Name() != e.method || len(st.A) == 0 || !paramOf(st.A[0], cf, e.recv) {
+				return false, fmt.Sprintf("invocation %d is not %s on constructor parameter %d", i+1, e.method, e.recv+1)
+			}
+			args = st.A[1:]
+		} else {
+			if st.Method != nil || st.Callee == nil || !paramOf(st.Callee, cf, e.recv) {
+				return false, fmt.Sprintf("call %d is not a call of constructor parameter %d", i+1, e.recv+1)
+			}
+			args = st.A
+		}
+		if len(args) != len(e.args) {
+			return false, fmt.Sprintf("call %d has %d arguments, expected %d", i+1, len(args), len(e.args))
+		}
+		for j, w := range e.args {
+			if !argOK(args[j], w) {
+				return false, fmt.Sprintf("argument %d of call %d is %s, expected %s", j+1, i+1, short(args[j]), w)
+			}
+		}
+	}
+	if result != "" && !argOK(p.Results[0], result) {
+		return false, fmt.Sprintf("the result is %s, expected %s", short(p.Results[0]), result)
+	}
+	return true, ""
+}
+
+// c04Composed: the composed equations of the wrappers built by one constructor.
+var c04Composed = map[string][]struct {
+	method string
+	exps   []cExp
+	result string
+}{
+	"fmap": {{"Put", nil, "p1"}, {"Get", []cExp{{0, "Get", []string{"p1"}}, {1, "", []string{"r0"}}}, "r1"}},
+	"cmap": {{"Put", []cExp{{1, "", []string{"p2"}}, {0, "Put", []string{"p1", "r0"}}}, "r1"}, {"Get", nil, "zero"}},
+	"codec": {{"Put", []cExp{{2, "", []string{"p2"}}, {0, "Put", []string{"p1", "r0"}}}, "r1"},
+		{"Get", []cExp{{0, "Get", []string{"p1"}}, {1, "", []string{"r0"}}}, "r1"}},
+	"iso": {{"Forward", []cExp{{0, "Get", []string{"p1"}}, {1, "Put", []string{"p2", "r0"}}}, ""},
+		{"Inverse", []cExp{{1, "Get", []string{"p1"}}, {0, "Put", []string{"p2", "r0"}}}, ""}},
+}
+
+// composedHolds: the composed equation of kind.method holds (memoised; false when there is none).
+func composedHolds(c *core.Ctx, kind, method string) (bool, string) {
+	spec, ok := c04Kinds[kind]
+	if !ok {
+		return false, ""
+	}
+	for _, e := range c04Composed[kind] {
+		if e.method == method {
+			return composedEq(c, spec.ctor, kind, method, e.exps, e.result)
+		}
+	}
+	return false, ""
+}
+
 func runC04(c *core.Ctx) {
 	c.Doc("equation", 14, "the method's event list equals its defining equation")
 	c.Doc("constructor", 6, "constructor stores its parameters in the matching fields")
@@ -128,6 +244,20 @@ func runC04(c *core.Ctx) {
 	c.Doc("witness", 8, "in-memory variants swapping positions are rejected by the type checker")
 
 	c04Discover(c)
+	// orComposed: the field-role form of the equation, or - for a representation it does not recognise - the same
+	// equation stated on the value the constructor builds
+	orComposed := func(ok bool, kind, method string) bool {
+		if os.Getenv("VERIF_C04_COMPOSED_ONLY") != "" {
+			h, why := composedHolds(c, kind, method)
+			fmt.Fprintf(os.Stderr, "composed %s.%s: %v %s\n", kind, method, h, why)
+			return h
+		}
+		if ok {
+			return true
+		}
+		h, _ := composedHolds(c, kind, method)
+		return h
+	}
 	// ---- join
 	if fn, p, name := c04Method(c, "join", "Put"); p != nil {
 		cs := calls(p)
@@ -167,30 +297,30 @@ func runC04(c *core.Ctx) {
 	}
 	// ---- fmap / cmap / codec
 	if fn, p, name := c04Method(c, "fmap", "Put"); p != nil {
-		c.Check(len(calls(p)) == 0 && len(nonLocalStores(p)) == 0 && paramOf(p.Results[0], fn, 1), "equation", name, fn.Pos(), "no invocation, no store, returns s", "a Getter must never write: Put performs %d calls / %d stores", len(calls(p)), len(nonLocalStores(p)))
+		c.Check(orComposed(len(calls(p)) == 0 && len(nonLocalStores(p)) == 0 && paramOf(p.Results[0], fn, 1), "fmap", "Put"), "equation", name, fn.Pos(), "no invocation, no store, returns s", "a Getter must never write: Put performs %d calls / %d stores", len(calls(p)), len(nonLocalStores(p)))
 	}
 	if fn, p, name := c04Method(c, "fmap", "Get"); p != nil {
 		cs := calls(p)
 		ok := len(cs) == 2 && isInvokeOn(cs[0], fn, rf("fmap", "lens"), "Get") && paramOf(cs[0].A[1], fn, 1) && isCallOfField(cs[1], fn, rf("fmap", "f")) && ir.Same(cs[1].A[0], cs[0].R) && ir.Same(p.Results[0], cs[1].R)
-		c.Check(ok, "equation", name, fn.Pos(), "f(lens.Get(s))", "expected f(lens.Get(s)):\n%s", p)
+		c.Check(orComposed(ok, "fmap", "Get"), "equation", name, fn.Pos(), "f(lens.Get(s))", "expected f(lens.Get(s)):\n%s", p)
 	}
 	if fn, p, name := c04Method(c, "cmap", "Put"); p != nil {
 		cs := calls(p)
 		ok := len(cs) == 2 && isCallOfField(cs[0], fn, rf("cmap", "f")) && paramOf(cs[0].A[0], fn, 2) && isInvokeOn(cs[1], fn, rf("cmap", "lens"), "Put") && paramOf(cs[1].A[1], fn, 1) && ir.Same(cs[1].A[2], cs[0].R) && ir.Same(p.Results[0], cs[1].R)
-		c.Check(ok && len(nonLocalStores(p)) == 0, "equation", name, fn.Pos(), "lens.Put(s, f(b))", "a Setter must write exactly the converted value: expected lens.Put(s, f(b)):\n%s", p)
+		c.Check(orComposed(ok && len(nonLocalStores(p)) == 0, "cmap", "Put"), "equation", name, fn.Pos(), "lens.Put(s, f(b))", "a Setter must write exactly the converted value: expected lens.Put(s, f(b)):\n%s", p)
 	}
 	if fn, p, name := c04Method(c, "cmap", "Get"); p != nil {
-		c.Check(len(calls(p)) == 0 && len(nonLocalStores(p)) == 0 && strings.HasPrefix(p.Results[0].Aux, "zero"), "equation", name, fn.Pos(), "zero value, no invocation", "Setter.Get must not read: %s", p)
+		c.Check(orComposed(len(calls(p)) == 0 && len(nonLocalStores(p)) == 0 && strings.HasPrefix(p.Results[0].Aux, "zero"), "cmap", "Get"), "equation", name, fn.Pos(), "zero value, no invocation", "Setter.Get must not read: %s", p)
 	}
 	if fn, p, name := c04Method(c, "codec", "Put"); p != nil {
 		cs := calls(p)
 		ok := len(cs) == 2 && isCallOfField(cs[0], fn, rf("codec", "cmap")) && paramOf(cs[0].A[0], fn, 2) && isInvokeOn(cs[1], fn, rf("codec", "lens"), "Put") && paramOf(cs[1].A[1], fn, 1) && ir.Same(cs[1].A[2], cs[0].R) && ir.Same(p.Results[0], cs[1].R)
-		c.Check(ok && len(nonLocalStores(p)) == 0, "equation", name, fn.Pos(), "lens.Put(s, cmap(b))", "expected lens.Put(s, cmap(b)):\n%s", p)
+		c.Check(orComposed(ok && len(nonLocalStores(p)) == 0, "codec", "Put"), "equation", name, fn.Pos(), "lens.Put(s, cmap(b))", "expected lens.Put(s, cmap(b)):\n%s", p)
 	}
 	if fn, p, name := c04Method(c, "codec", "Get"); p != nil {
 		cs := calls(p)
 		ok := len(cs) == 2 && isInvokeOn(cs[0], fn, rf("codec", "lens"), "Get") && paramOf(cs[0].A[1], fn, 1) && isCallOfField(cs[1], fn, rf("codec", "fmap")) && ir.Same(cs[1].A[0], cs[0].R) && ir.Same(p.Results[0], cs[1].R)
-		c.Check(ok, "equation", name, fn.Pos(), "fmap(lens.Get(s))", "expected fmap(lens.Get(s)):\n%s", p)
+		c.Check(orComposed(ok, "codec", "Get"), "equation", name, fn.Pos(), "fmap(lens.Get(s))", "expected fmap(lens.Get(s)):\n%s", p)
 	}
 	// ---- lensM
 	if fn, p, name := c04Method(c, "lensM", "Put"); p != nil {
@@ -210,7 +340,7 @@ func runC04(c *core.Ctx) {
 		if fn, p, name := c04Method(c, "iso", x[0]); p != nil {
 			cs := calls(p)
 			ok := len(cs) == 2 && isInvokeOn(cs[0], fn, rf("iso", x[1]), "Get") && paramOf(cs[0].A[1], fn, 1) && isInvokeOn(cs[1], fn, rf("iso", x[2]), "Put") && paramOf(cs[1].A[1], fn, 2) && ir.Same(cs[1].A[2], cs[0].R)
-			c.Check(ok && len(nonLocalStores(p)) == 0, "equation", name, fn.Pos(), fmt.Sprintf("%s.Put(dst, %s.Get(src))", x[2], x[1]), "expected %s.Put(second argument, %s.Get(first argument)):\n%s", x[2], x[1], p)
+			c.Check(orComposed(ok && len(nonLocalStores(p)) == 0, "iso", x[0]), "equation", name, fn.Pos(), fmt.Sprintf("%s.Put(dst, %s.Get(src))", x[2], x[1]), "expected %s.Put(second argument, %s.Get(first argument)):\n%s", x[2], x[1], p)
 		}
 	}
 	// ---- morphism
@@ -225,6 +355,10 @@ func runC04(c *core.Ctx) {
 			continue
 		}
 		an := c.Analyze(fn)
+		if len(an.Problems) == 0 && len(an.Headers) == 0 {
+			// the walk may live in a helper (an internal iterator taking the visit function): followed with its loop
+			an = c.AnalyzeLoops(fn)
+		}
 		if problems(c, "equation", name, an) {
 			continue
 		}
@@ -240,7 +374,8 @@ func runC04(c *core.Ctx) {
 				nilAtom := &ir.Term{Op: "bin", Aux: "==", Args: sorted2(ir.Nil, elem)}
 				nCall := 0
 				for _, p := range an.Segs[h] {
-					if p.To != h {
+					// a bottom-tested loop runs its body on the way out too
+					if p.To != h && !l.Rotated() {
 						if len(calls(p)) != 0 {
 							ok, why = false, "invocation after the loop"
 						}
@@ -308,6 +443,22 @@ func runC04(c *core.Ctx) {
 				ok, why = false, "two parameters share one field"
 			}
 		}
+		if !ok {
+			// another representation of the composite: the constructor is right when every method of the value it
+			// builds satisfies its equation stated on the constructor's own parameters
+			for kind, spec := range c04Kinds {
+				if spec.ctor != x.fn || len(c04Composed[kind]) == 0 {
+					continue
+				}
+				all := true
+				for _, e := range c04Composed[kind] {
+					if h, _ := composedHolds(c, kind, e.method); !h {
+						all = false
+					}
+				}
+				ok = all
+			}
+		}
 		c.Check(ok, "constructor", name, fn.Pos(), strings.Join(x.fields, ", ")+" := parameters in order", "%s", why)
 	}
 	// Morphism(seq...) returns seq itself
@@ -367,11 +518,162 @@ func shapeTypes(c *core.Ctx) []*types.Named {
 	return out
 }
 
+// shapeComposed: the positional rules of one ForShapeN stated on the value it builds (representation independent):
+// ForShapeN makes one ForProductN[T, A...](attr...) call; Put on the built value is N chained Put invocations, the
+// i-th lens of ForProductN receiving the i-th value parameter; Get returns the i-th lens's Get(s) at position i.
+type shapeComp struct {
+	nt                    *types.Named
+	forOK, putOK, getOK   bool
+	forWhy, putWhy, getWhy string
+}
+
+func shapeComposed(c *core.Ctx, fn *ssa.Function) *shapeComp {
+	r := &shapeComp{forWhy: "not analysed", putWhy: "not analysed", getWhy: "not analysed"}
+	an := c.AnalyzeKeepingDepth(fn, "forproduct", func(f *ssa.Function) bool { return strings.HasPrefix(f.Name(), "ForProduct") }, 14)
+	ps := an.AllPaths()
+	if len(an.Problems) > 0 || len(ps) != 1 || ps[0].Exit != ir.ExitReturn || len(ps[0].Results) != 1 {
+		r.forWhy = "ForShapeN is not a single straight-line path"
+		return r
+	}
+	p := ps[0]
+	cs := calls(p)
+	if len(cs) != 1 || cs[0].Static == nil || !strings.HasPrefix(cs[0].Static.Name(), "ForProduct") {
+		r.forWhy = "expected exactly one call, of ForProductN"
+		return r
+	}
+	call := cs[0]
+	tps := typeParamsOf(fn)
+	n := len(tps) - 1
+	r.forOK, r.forWhy = true, ""
+	if len(call.InstArgs) != len(tps) {
+		r.forOK, r.forWhy = false, "ForProductN is instantiated with a different number of type arguments"
+	}
+	for i := range call.InstArgs {
+		if r.forOK && !types.Identical(call.InstArgs[i], tps[i]) {
+			r.forOK, r.forWhy = false, fmt.Sprintf("type argument %d of %s is %s, expected %s", i+1, call.Static.Name(), call.InstArgs[i], tps[i])
+		}
+	}
+	if r.forOK && (len(call.A) != 1 || !paramOf(call.A[0], fn, 0)) {
+		r.forOK, r.forWhy = false, "the names are not forwarded unchanged"
+	}
+	v := p.Results[0]
+	dt := p.End.DynType(v)
+	if pt, isP := dt.(*types.Pointer); isP {
+		dt = pt.Elem()
+	}
+	nt, _ := dt.(*types.Named)
+	if nt == nil {
+		r.forOK, r.forWhy = false, "the concrete type of the built value is not known"
+		return r
+	}
+	r.nt = nt.Origin()
+	lensOf := func(t *ir.Term) int {
+		if t.Op == "extract" && len(t.Args) == 1 && ir.Same(t.Args[0], call.R) {
+			var i int
+			fmt.Sscanf(t.Aux, "%d", &i)
+			return i
+		}
+		return -1
+	}
+	bind := func(m string) (*ssa.Function, *ir.Path, string) {
+		mf := iterMethod(c, r.nt, m)
+		if mf == nil {
+			return nil, nil, "method " + m + " not found"
+		}
+		recv := v
+		if _, isPtr := mf.Params[0].Type().Underlying().(*types.Pointer); !isPtr && recv.Op == "alloc" {
+			recv = p.End.MemAt(recv)
+		}
+		man := c.AnalyzeDeep(mf, ir.NewRootState(mf, []*ir.Term{recv}, nil, p.End), "composed:"+fn.Name(), 14)
+		mps := man.AllPaths()
+		if len(man.Problems) > 0 || len(mps) != 1 || mps[0].Exit != ir.ExitReturn {
+			return nil, nil, m + " on the built value is not a single straight-line path"
+		}
+		if len(nonLocalStores(mps[0])) != 0 {
+			return nil, nil, m + " stores on its own"
+		}
+		return mf, mps[0], ""
+	}
+	// Put
+	if mf, mp, why := bind("Put"); mp == nil {
+		r.putWhy = why
+	} else {
+		mcs := calls(mp)
+		ok, why := len(mcs) == n && len(mf.Params) == n+2 && len(mp.Results) == 1, fmt.Sprintf("%d invocations for %d lenses", len(mcs), n)
+		used := map[int]bool{}
+		var prev *ir.Term
+		for k, st := range mcs {
+			if !ok {
+				break
+			}
+			if st.Method == nil || st.Method.Name() != "Put" || len(st.A) != 3 {
+				ok, why = false, "an invocation is not a Put of a lens"
+				break
+			}
+			li := lensOf(st.A[0])
+			if li < 0 || li >= n || used[li] {
+				ok, why = false, "a Put is not on one of the lenses of ForProductN, or a lens is used twice"
+				break
+			}
+			used[li] = true
+			if !paramOf(st.A[2], mf, li+2) {
+				ok, why = false, fmt.Sprintf("lens %d is given %s, expected the value parameter of the same position (%s)", li+1, short(st.A[2]), mf.Params[li+2].Name())
+				break
+			}
+			if k == 0 {
+				if !paramOf(st.A[1], mf, 1) {
+					ok, why = false, "the first Put does not start from the container argument"
+				}
+			} else if !ir.Same(st.A[1], prev) {
+				ok, why = false, "the Puts are not chained on the container (result of one is the container of the next)"
+			}
+			prev = st.R
+		}
+		if ok && !ir.Same(mp.Results[0], prev) {
+			ok, why = false, "the last Put's result is not returned"
+		}
+		r.putOK, r.putWhy = ok, why
+	}
+	// Get
+	if mf, mp, why := bind("Get"); mp == nil {
+		r.getWhy = why
+	} else {
+		ok, why := len(mp.Results) == n && len(calls(mp)) == n, fmt.Sprintf("%d results / %d invocations for %d lenses", len(mp.Results), len(calls(mp)), n)
+		for i := 0; i < n && ok; i++ {
+			m, _, args, isC := callParts(mp.Results[i])
+			ok = isC && m == "Get" && len(args) == 2 && lensOf(args[0]) == i && paramOf(args[1], mf, 1)
+			if !ok {
+				why = fmt.Sprintf("result %d is %s, expected the Get(s) of lens %d", i+1, short(mp.Results[i]), i+1)
+			}
+		}
+		r.getOK, r.getWhy = ok, why
+	}
+	return r
+}
+
 func shapeRules(c *core.Ctx) {
+	comps := map[string]*shapeComp{} // by ForShapeN name
+	byType := map[*types.Named]*shapeComp{}
+	for _, fn := range familyFuncs(c, "optics", "ForShape") {
+		sc := shapeComposed(c, fn)
+		comps[fn.Name()] = sc
+		if os.Getenv("VERIF_C04_COMPOSED_ONLY") != "" {
+			fmt.Fprintf(os.Stderr, "composed %s: for=%v %s put=%v %s get=%v %s\n", fn.Name(), sc.forOK, sc.forWhy, sc.putOK, sc.putWhy, sc.getOK, sc.getWhy)
+		}
+		if sc.nt != nil {
+			byType[sc.nt] = sc
+		}
+	}
+	flat := map[*types.Named]bool{}
 	for _, nt := range shapeTypes(c) {
 		st := nt.Underlying().(*types.Struct)
 		n := st.NumFields()
 		tname := nt.Obj().Name()
+		flat[nt] = true
+		comp := byType[nt]
+		if comp == nil {
+			comp = &shapeComp{}
+		}
 		// Put
 		fn := c.W.Method("optics", tname, "Put")
 		name := "optics." + tname + ".Put"
@@ -417,7 +719,7 @@ func shapeRules(c *core.Ctx) {
 			if ok && !ir.Same(p.Results[0], prev) {
 				ok, why = false, "the last Put's result is not returned"
 			}
-			c.Check(ok, "shape", name, fn.Pos(), fmt.Sprintf("%d chained positional Puts", n), "%s", why)
+			c.Check(ok || (comp.forOK && comp.putOK), "shape", name, fn.Pos(), fmt.Sprintf("%d chained positional Puts", n), "%s", why)
 		}
 		// Get
 		fn = c.W.Method("optics", tname, "Get")
@@ -432,8 +734,27 @@ func shapeRules(c *core.Ctx) {
 					why = fmt.Sprintf("result %d is %s, expected %s.Get(s)", i+1, short(p.Results[i]), st.Field(i).Name())
 				}
 			}
-			c.Check(ok, "shape", name, fn.Pos(), fmt.Sprintf("%d positional Gets", n), "%s", why)
+			c.Check(ok || (comp.forOK && comp.getOK), "shape", name, fn.Pos(), fmt.Sprintf("%d positional Gets", n), "%s", why)
 		}
+	}
+	// shapes that are not a flat struct of N lenses (a nested / delegating representation): the positional rules
+	// stated on the value ForShapeN builds
+	for _, fn := range familyFuncs(c, "optics", "ForShape") {
+		sc := comps[fn.Name()]
+		if sc == nil || sc.nt == nil || flat[sc.nt] {
+			continue
+		}
+		tname := sc.nt.Obj().Name()
+		n := len(typeParamsOf(fn)) - 1
+		pos := fn.Pos()
+		if mf := iterMethod(c, sc.nt, "Put"); mf != nil {
+			pos = mf.Pos()
+		}
+		c.Check(sc.putOK, "shape", "optics."+tname+".Put", pos, fmt.Sprintf("%d chained positional Puts (on the value %s builds)", n, fn.Name()), "%s", sc.putWhy)
+		if mf := iterMethod(c, sc.nt, "Get"); mf != nil {
+			pos = mf.Pos()
+		}
+		c.Check(sc.getOK, "shape", "optics."+tname+".Get", pos, fmt.Sprintf("%d positional Gets (on the value %s builds)", n, fn.Name()), "%s", sc.getWhy)
 	}
 	// ForShapeN
 	for _, fn := range familyFuncs(c, "optics", "ForShape") {
@@ -484,6 +805,10 @@ func shapeRules(c *core.Ctx) {
 			if ok && seen != n {
 				ok, why = false, fmt.Sprintf("%d of %d field lenses are set", seen, n)
 			}
+		}
+		if sc := comps[fn.Name()]; !ok && sc != nil && sc.forOK && sc.putOK && sc.getOK {
+			// not the flat literal: the lenses reach the positions the methods use them at (shown on the built value)
+			ok = true
 		}
 		c.Check(ok, "for-shape", name, fn.Pos(), "i-th lens of ForProductN -> i-th field", "%s", why)
 	}
@@ -565,7 +890,19 @@ func bimapAuto(c *core.Ctx) {
 // c04Witnesses: swapping two value parameters in shapeN.Put, or Forward/Inverse in morphism, must not type-check.
 func c04Witnesses(c *core.Ctx) {
 	pk := c.W.Pkgs["optics"]
-	for _, nt := range shapeTypes(c) {
+	// the shape types: flat structs of lenses, and whatever else the ForShapeN constructors build
+	all := shapeTypes(c)
+	seen := map[*types.Named]bool{}
+	for _, nt := range all {
+		seen[nt] = true
+	}
+	for _, fn := range familyFuncs(c, "optics", "ForShape") {
+		if sc := shapeComposed(c, fn); sc.nt != nil && !seen[sc.nt] {
+			seen[sc.nt] = true
+			all = append(all, sc.nt)
+		}
+	}
+	for _, nt := range all {
 		tname := nt.Obj().Name()
 		name := "optics." + tname + ".Put#swap"
 		errs, applied, perr := TypeCheckVariant(pk, func(fset *token.FileSet, files []*ast.File) bool {
